@@ -189,6 +189,21 @@ def run(chk):
                 l = fn.e(fn.strip(x["lhs"]))
                 if l and l["k"] == "ref" and "did" in l:
                     sec_locals.add(l["did"])
+        # ... or a flag that is set (to a non-zero constant) only where is_section() is known to hold
+        def sec_edge(b, si, atom, holds, fn=fn):
+            a = fn.e(atom)
+            return [("is-section",)] if (a and a["k"] == "mcall" and a.get("cn") == "is_section" and holds) else ()
+        ms0 = Must(fn, None, sec_edge)
+        cand = {}
+        for i, x in fn.ex.items():
+            if x["k"] == "binop" and x["op"] == "=":
+                l = fn.e(fn.strip(x["lhs"]))
+                r = fn.e(fn.strip(x["rhs"]))
+                if l and l["k"] == "ref" and l.get("dk") == "local" and "did" in l and r is not None and isinstance(r.get("cv"), int) and r["cv"] != 0:
+                    cand.setdefault(l["did"], []).append(("is-section",) in (ms0.before(i) or frozenset()))
+        for d, flags in cand.items():
+            if flags and all(flags):
+                sec_locals.add(d)
 
         def edge_fx(b, si, atom, holds, fn=fn, sec_locals=sec_locals):
             a = fn.e(atom)
